@@ -23,6 +23,14 @@ CHECKS = {
    technique="TLC model checking of RtpsWriter.tla (AckWaiter) + replay into the real Writer + TLC trace validation of the completion signal",
    text="The AckWaiter of the implementation-shaped model is explored with all interleavings of writes, ACKNACKs with boundary bases, reader match/loss and the wait call; the completion signal observed on the real Writer after every event of every replayed and random run must be set only if (most generous reading) every reliable reader matched at the call acknowledged everything written before it or was lost, and must be set whenever (strictest reading) that is the case.",
    note="writer-level command and completion channel; the public sync/async DataWriter API on top of it is exercised by C13"),
+ "C02": dict(level="model_checking", engine="tlc+link-driver", design="§4 C02",
+   technique="TLC model checking of RtpsLink.tla (writer || reader || faulty FIFO network, fault budget) + replay of TLC fault schedules on a real Writer<->Reader link + TLC trace validation (Trace_RtpsLink.tla)",
+   text="Convergence is stated as safety over rounds {heartbeat tick; deliver; fire repair timers; deliver}: K fault-free rounds bring the reader to hold everything the writer retains and the writer to see it acknowledged, one more round is silent. TLC explores every placement of up to 3 drop/duplicate faults over every datagram of a bounded exchange (plain and fragmented samples) on the implementation-shaped model; every explored fault schedule (content-addressed: kind, sequence number, fragment, occurrence) is replayed on a real Writer and a real Reader/DataReader joined through real MessageReceivers, plus random schedules with 1024-byte fragments, swaps and cache cleaning, and every run is validated by TLC.",
+   note="bounded constants (spec/MC_RtpsLink_*.cfg); FIFO network; timers fired by the harness; known finding S3 (NACKFRAG not acted upon) is a named deviation of the model and is reported as KNOWN-FINDING only when its exact signature is observed"),
+ "C05": dict(level="model_checking", engine="tlc+link-driver+reader-driver", design="§4 C05",
+   technique="TLC: Fragmentation.tla partition lemma + RtpsLink.tla/RtpsReader.tla model checking; replay into the real writer->reader link and the real reader; TLC trace validation of fragment geometry, completeness, exact bytes, delivered once",
+   text="Fragment geometry (number, offset and length of every DATAFRAG the real writer emits, sizes around multiples of 48/64/1024-byte fragments) is judged by the operators of Fragmentation.tla, whose partition lemma TLC checks for all fragment sizes 1..9 and sizes up to 4*fs+3; reassembly is checked end to end: every sample the real DataReader hands over must be byte-identical to what was written, handed over once and only after all fragments were delivered, under every drop/duplicate schedule of the link model and random permutations, duplications and interleavings of fragments of several samples and writers on the reader driver.",
+   note="same bounds as C02 and C01; payload bytes are position dependent so that a misplaced or foreign fragment changes the comparison"),
 }
 NOT_APPLICABLE = {}
 
